@@ -109,6 +109,7 @@ pub struct HStats {
     pub seeks_in_buffer: usize,
     pub seeks_real: usize,
     pub largest_set: usize,
+    pub positions_checked_after_error: usize,
     /// seek targets inside / outside the last `capacity` bytes the source has delivered (a fact about
     /// the workload, independent of whether the reader uses an in-buffer shortcut)
     pub seek_targets_in_window: usize,
@@ -543,7 +544,21 @@ impl<'a> Runner<'a> {
                 self.stats.records_delivered += 1;
                 if self.degraded {
                     match in_order_member(self.r(), self.last_delivered, rec, owned) {
-                        Some(k) => self.last_delivered = Some(k),
+                        Some(k) => {
+                            self.last_delivered = Some(k);
+                            // "the position reported after a record has been returned is that record's true
+                            // location": also for a record that is returned after an error
+                            if let (Some(exp), Some(p)) = (self.coords(k), self.rig.rr().position()) {
+                                self.stats.positions_checked_after_error += 1;
+                                if p != exp {
+                                    self.dev(
+                                        "position",
+                                        "wrong-position-after-error",
+                                        format!("after an earlier error record {} was returned; position() is {:?}, its true coordinates are {:?}", k, p, exp),
+                                    );
+                                }
+                            }
+                        }
                         None => {
                             let (tag, sig): (&'static str, &str) = if any_member(self.r(), rec, owned).is_some() {
                                 ("total", "record-repeated-or-out-of-order-after-error")
